@@ -719,6 +719,14 @@ impl Xot {
     /// # Ok::<(), xot::Error>(())
     /// ```
     pub fn deduplicate_namespaces(&mut self, node: Node) {
+        // removing a declaration can make another one redundant (a default
+        // namespace declaration that only existed to undo the removed one),
+        // so repeat until nothing is removed any more
+        while self.deduplicate_namespaces_pass(node) {}
+    }
+
+    // returns true if any declaration was removed
+    fn deduplicate_namespaces_pass(&mut self, node: Node) -> bool {
         let mut fullname_serializer = FullnameSerializer::new(self, vec![]);
         let mut fixup_nodes = Vec::new();
         let mut deduplicate_tracker = DeduplicateTracker::new();
@@ -784,12 +792,16 @@ impl Xot {
                 fixup_prefixes.push((node, prefixes_to_remove.collect::<Vec<_>>()));
             }
         }
+        let mut removed = false;
         for (node, prefix) in fixup_prefixes {
             let mut namespaces = self.namespaces_mut(node);
             for prefix in prefix {
-                namespaces.remove(prefix);
+                if namespaces.remove(prefix).is_some() {
+                    removed = true;
+                }
             }
         }
+        removed
     }
 
     pub(crate) fn prefixes_in_scope(&self, node: Node) -> Prefixes {
